@@ -32,6 +32,10 @@ pub struct GenCfg {
     pub docs: bool,
     /// allow `deprecated` on definitions (their uses then produce Deprecated lints)
     pub deprecated: bool,
+    /// probability (x/256) that a commentable element gets a doc comment
+    pub doc_chance: u8,
+    /// non-ASCII / mixed indentation and white-space-only lines in doc comments
+    pub exotic_docs: bool,
 }
 
 impl Default for GenCfg {
@@ -45,6 +49,8 @@ impl Default for GenCfg {
             attrs: true,
             docs: true,
             deprecated: false,
+            doc_chance: 40,
+            exotic_docs: false,
         }
     }
 }
@@ -243,21 +249,53 @@ impl<'a, 'b> Gen<'a, 'b> {
         out
     }
 
-    fn doc_for(&mut self) -> Vec<String> {
-        if !self.cfg.docs || !self.chance(40) {
-            return Vec::new();
+    fn doc_cfg(&self, params: Vec<String>, returns: Vec<String>, returns_single: bool) -> crate::doc::DocCfg {
+        let mut targets: Vec<String> = self.plans.iter().map(|p| p.name.clone()).filter(|n| !is_keyword(n)).collect();
+        targets.push("Missing".into());
+        targets.push("int32".into());
+        crate::doc::DocCfg {
+            targets,
+            params,
+            returns,
+            returns_single,
+            exotic: self.cfg.exotic_docs,
         }
-        const LINES: [&str; 6] = [" A short description.", " second line", "", " with unicode é中", "\tindented with a tab", " x"];
-        let n = 1 + self.pick(3);
-        // uniform indentation: all from LINES[..] start with one white-space character or are empty
-        (0..n).map(|_| LINES[self.pick(LINES.len())].to_owned()).collect()
+    }
+
+    fn doc_with(&mut self, params: Vec<String>, returns: Vec<String>, returns_single: bool) -> (Vec<String>, Option<Box<crate::doc::DocModel>>) {
+        if !self.cfg.docs || !self.chance(self.cfg.doc_chance) {
+            return (Vec::new(), None);
+        }
+        let cfg = self.doc_cfg(params, returns, returns_single);
+        let d = crate::doc::gen_doc(self.u, &cfg);
+        if d.is_empty() {
+            return (Vec::new(), None);
+        }
+        self.labels.insert("doc-comment");
+        (d.lines(), Some(Box::new(d)))
     }
 
     fn prelude(&mut self, target: &str, docs_ok: bool) -> Prelude {
-        let doc = if docs_ok { self.doc_for() } else { Vec::new() };
+        let (doc, docm) = if docs_ok { self.doc_with(vec![], vec![], false) } else { (Vec::new(), None) };
         Prelude {
             doc,
             attrs: self.attrs_for(target),
+            docm,
+        }
+    }
+
+    fn op_prelude(&mut self, target: &str, params: &[ParamM], ret: &RetM) -> Prelude {
+        let pnames: Vec<String> = params.iter().map(|p| p.name.clone()).filter(|n| !is_keyword(n)).collect();
+        let (rnames, single) = match ret {
+            RetM::None => (vec![], false),
+            RetM::Single(_) => (vec![], true),
+            RetM::Tuple(v) => (v.iter().map(|p| p.name.clone()).filter(|n| !is_keyword(n)).collect(), false),
+        };
+        let (doc, docm) = self.doc_with(pnames, rnames, single);
+        Prelude {
+            doc,
+            attrs: self.attrs_for(target),
+            docm,
         }
     }
 
@@ -437,6 +475,7 @@ impl<'a, 'b> Gen<'a, 'b> {
                 pre: Prelude {
                     doc: vec![],
                     attrs: self.attrs_for("parameter"),
+                    docm: None,
                 },
                 tag,
                 name,
@@ -837,8 +876,9 @@ impl<'a, 'b> Gen<'a, 'b> {
                 _ => RetM::Tuple(self.gen_params(idx, &scope, 2, 3, true)),
             };
             let target = if matches!(ret, RetM::None) { "operation-noreturn" } else { "operation" };
+            let op_pre = self.op_prelude(target, &params, &ret);
             ops.push(OpM {
-                pre: self.prelude(target, true),
+                pre: op_pre,
                 idempotent: self.chance(80),
                 name,
                 params,
